@@ -169,6 +169,13 @@ func (s Style) Underline(params ...interface{}) Style {
 func (s Style) Attributes(attrs AttrMask) Style {
 	s2 := s
 	s2.attrs = attrs
+	// keep the underline style in step with the (deprecated) underline bit,
+	// as Underline does: screens draw from the style
+	if attrs&AttrUnderline == 0 {
+		s2.ulStyle = UnderlineStyleNone
+	} else if s2.ulStyle == UnderlineStyleNone {
+		s2.ulStyle = UnderlineStyleSolid
+	}
 	return s2
 }
 
